@@ -634,6 +634,7 @@ def pull_client_hello(buf: Buffer) -> ClientHello:
 
             extension_type = buf.pull_uint16()
             extension_length = buf.pull_uint16()
+            extension_end = buf.tell() + extension_length
             if extension_type == ExtensionType.KEY_SHARE:
                 hello.key_share = pull_list(buf, 2, partial(pull_key_share, buf))
             elif extension_type == ExtensionType.SUPPORTED_VERSIONS:
@@ -659,6 +660,8 @@ def pull_client_hello(buf: Buffer) -> ClientHello:
                 hello.other_extensions.append(
                     (extension_type, buf.pull_bytes(extension_length))
                 )
+            if buf.tell() != extension_end:
+                raise AlertDecodeError("Extension length does not match its content")
 
         pull_list(buf, 2, pull_extension)
 
@@ -747,6 +750,7 @@ def pull_server_hello(buf: Buffer) -> ServerHello:
         def pull_extension() -> None:
             extension_type = buf.pull_uint16()
             extension_length = buf.pull_uint16()
+            extension_end = buf.tell() + extension_length
             if extension_type == ExtensionType.SUPPORTED_VERSIONS:
                 hello.supported_version = buf.pull_uint16()
             elif extension_type == ExtensionType.KEY_SHARE:
@@ -757,6 +761,8 @@ def pull_server_hello(buf: Buffer) -> ServerHello:
                 hello.other_extensions.append(
                     (extension_type, buf.pull_bytes(extension_length))
                 )
+            if buf.tell() != extension_end:
+                raise AlertDecodeError("Extension length does not match its content")
 
         pull_list(buf, 2, pull_extension)
 
@@ -817,12 +823,15 @@ def pull_new_session_ticket(buf: Buffer) -> NewSessionTicket:
         def pull_extension() -> None:
             extension_type = buf.pull_uint16()
             extension_length = buf.pull_uint16()
+            extension_end = buf.tell() + extension_length
             if extension_type == ExtensionType.EARLY_DATA:
                 new_session_ticket.max_early_data_size = buf.pull_uint32()
             else:
                 new_session_ticket.other_extensions.append(
                     (extension_type, buf.pull_bytes(extension_length))
                 )
+            if buf.tell() != extension_end:
+                raise AlertDecodeError("Extension length does not match its content")
 
         pull_list(buf, 2, pull_extension)
 
@@ -864,6 +873,7 @@ def pull_encrypted_extensions(buf: Buffer) -> EncryptedExtensions:
         def pull_extension() -> None:
             extension_type = buf.pull_uint16()
             extension_length = buf.pull_uint16()
+            extension_end = buf.tell() + extension_length
             if extension_type == ExtensionType.ALPN:
                 alpn_protocols = pull_list(buf, 2, partial(pull_alpn_protocol, buf))
                 if not alpn_protocols:
@@ -875,6 +885,8 @@ def pull_encrypted_extensions(buf: Buffer) -> EncryptedExtensions:
                 extensions.other_extensions.append(
                     (extension_type, buf.pull_bytes(extension_length))
                 )
+            if buf.tell() != extension_end:
+                raise AlertDecodeError("Extension length does not match its content")
 
         pull_list(buf, 2, pull_extension)
 
@@ -962,6 +974,7 @@ def pull_certificate_request(buf: Buffer) -> CertificateRequest:
         def pull_extension() -> None:
             extension_type = buf.pull_uint16()
             extension_length = buf.pull_uint16()
+            extension_end = buf.tell() + extension_length
             if extension_type == ExtensionType.SIGNATURE_ALGORITHMS:
                 certificate_request.signature_algorithms = pull_list(
                     buf, 2, buf.pull_uint16
@@ -970,6 +983,8 @@ def pull_certificate_request(buf: Buffer) -> CertificateRequest:
                 certificate_request.other_extensions.append(
                     (extension_type, buf.pull_bytes(extension_length))
                 )
+            if buf.tell() != extension_end:
+                raise AlertDecodeError("Extension length does not match its content")
 
         pull_list(buf, 2, pull_extension)
 
